@@ -29,6 +29,10 @@ func (r *runner) sig(c *tcase, et *etype, what string) vh.M {
 
 func (r *runner) report(c *tcase, raw json.RawMessage, et *etype, what, msg string, doc []byte, extra vh.M) {
 	s := r.sig(c, et, what)
+	if len(c.Faults) == 1 && c.Faults[0].F == "EntryRange" {
+		// which bound, which spelling, which width
+		s["range"] = fmt.Sprintf("%s/%s/%d", c.Faults[0].Val, c.Faults[0].Notation, et.Bits)
+	}
 	for k, v := range extra {
 		if k == "deviation" {
 			s[k] = v
@@ -140,6 +144,19 @@ func decodeInto(et *etype, src interface{}, o *absObj, rc *rcvSpec, format strin
 func (r *runner) runInst(ci, ii int, c *tcase, raw json.RawMessage, et *etype) {
 	r.count("instantiations")
 	path := filepath.Join(r.scratch, "doc.table")
+	if c.Obj.Wide != "" {
+		// long-line class: widen object and expectation (Serialization!Widen) until every row exceeds the size
+		wc, e := widenCase(et, c, path)
+		if e != nil {
+			r.report(c, raw, et, "construct", "cannot construct the wide object: "+e.Error(), nil, nil)
+			return
+		}
+		c = wc
+		r.count("wide_" + c.Obj.Wide)
+		old := probeCap
+		probeCap = len(c.Exp.C) + 64
+		defer func() { probeCap = old }()
+	}
 	// ---- build
 	r.jr.at(ci, ii, "build")
 	src, err := buildObj(et, &c.Obj)
@@ -187,9 +204,9 @@ func (r *runner) runInst(ci, ii int, c *tcase, raw json.RawMessage, et *etype) {
 		}
 		var e error
 		if c.Fmt == "json" {
-			mut, e = applyJSONFault(mut, ft)
+			mut, e = applyJSONFault(mut, ft, et)
 		} else {
-			mut, e = applyTableFault(mut, ft)
+			mut, e = applyTableFault(mut, ft, et)
 		}
 		if e == errInapplicable {
 			r.count("fault_inapplicable")
@@ -242,6 +259,36 @@ func (r *runner) runInst(ci, ii int, c *tcase, raw json.RawMessage, et *etype) {
 				extra["deviation"] = "table-dims-lost"
 			}
 			r.report(c, raw, et, what, msg, mut, extra)
+		}
+		return
+	}
+	// ---- entries at the bounds of an integer type: rejected, or read exactly
+	if c.Expect == "error" || c.Expect == "exact-or-error" {
+		r.count("faults")
+		r.count("range_entries")
+		if pm != "" {
+			r.report(c, raw, et, "decoder_panic", pm, mut, nil)
+			return
+		}
+		if err != nil {
+			r.count("fault_error")
+			return
+		}
+		r.count("fault_object")
+		if c.Expect == "error" {
+			r.report(c, raw, et, "out_of_range_accepted", "an entry outside the range of the element type was accepted", mut, nil)
+			return
+		}
+		var what, msg string
+		p := vh.Try(func() {
+			obs := observe(et, dec)
+			what, msg = compare(et, &c.Exp, &obs, false)
+		})
+		if p != "" {
+			what, msg = "corrupt_object", "panic while reading the decoded object: "+p
+		}
+		if what != "" {
+			r.report(c, raw, et, "bound_"+what, msg, mut, nil)
 		}
 		return
 	}
@@ -343,6 +390,8 @@ func applyLayout(b []byte, layout string) []byte {
 	case "NoFinalNewline":
 		// the last line is not terminated (what Table() yields, or another tool writes)
 		s = strings.TrimRight(s, "\n")
+	case "OneLine":
+		s = strings.Join(strings.Fields(s), " ") + "\n"
 	case "CRLF":
 		s = strings.Replace(s, "\n", "\r\n", -1)
 	case "TrailingBlanks":
@@ -356,4 +405,79 @@ func rcvOf(c *tcase) string {
 		return "fresh"
 	}
 	return c.Rcv.Pre
+}
+
+var wideBytes = map[string]int{"64K": 64 << 10, "1M": 1 << 20, "4M": 4 << 20}
+
+// widenCase returns a copy of the case whose object and expectation are
+// widened k times (Serialization!Widen): columns of the denotation repeat with
+// the period of the base object.  k is the smallest factor for which every row
+// of the exported table is longer than the size class (measured on the real
+// export of the base object).
+func widenCase(et *etype, c *tcase, path string) (*tcase, error) {
+	size, ok := wideBytes[c.Obj.Wide]
+	if !ok {
+		return nil, fmt.Errorf("unknown size class %s", c.Obj.Wide)
+	}
+	base, err := buildObj(et, &c.Obj)
+	if err != nil {
+		return nil, err
+	}
+	doc, err, pm := encode(base, "table", path)
+	if err != nil || pm != "" {
+		return nil, fmt.Errorf("export of the base object: %v %s", err, pm)
+	}
+	shortest := len(doc)
+	if c.Obj.K == "matrix" {
+		for _, l := range strings.Split(strings.TrimRight(string(doc), "\n"), "\n") {
+			if len(l) < shortest {
+				shortest = len(l)
+			}
+		}
+	}
+	if shortest < 1 {
+		shortest = 1
+	}
+	k := size/shortest + 2
+	w := *c
+	o := c.Obj
+	e := c.Exp
+	switch o.K {
+	case "vector":
+		n := o.N
+		o.N = n * k
+		o.C = make([]string, n*k)
+		for q := range o.C {
+			o.C[q] = c.Obj.C[q%n]
+		}
+		e.N = c.Exp.N * k
+		e.C = make([]absEl, len(c.Exp.C)*k)
+		for q := range e.C {
+			e.C[q] = c.Exp.C[q%len(c.Exp.C)]
+		}
+	case "matrix":
+		if len(o.View) == 0 {
+			cols := o.Cols
+			o.Cols = cols * k
+			o.C = make([]string, o.Rows*o.Cols)
+			for q := range o.C {
+				o.C[q] = c.Obj.C[(q/o.Cols)*cols+(q%o.Cols)%cols]
+			}
+		} else { // transposed view: the parent grows in rows
+			rows := o.Rows
+			o.Rows = rows * k
+			o.C = make([]string, o.Rows*o.Cols)
+			for q := range o.C {
+				o.C[q] = c.Obj.C[q%(rows*o.Cols)]
+			}
+		}
+		ec := c.Exp.Cols
+		e.Cols = ec * k
+		e.C = make([]absEl, e.Rows*e.Cols)
+		for q := range e.C {
+			e.C[q] = c.Exp.C[(q/e.Cols)*ec+(q%e.Cols)%ec]
+		}
+	}
+	w.Obj, w.Exp = o, e
+	return &w, nil
 }
